@@ -89,7 +89,7 @@ package bcl
 //
 // Load: never panics, and succeeds only if no read came up short; the header is checked
 //@ func (*Prog).Load
-//@   ghost loaderr = err
+//@   ghost loaderr = err; loadname = prog.name
 //@   requires fresh_stream: g.rp == 0 && !g.short && g.rlen >= 0 && !g.rfail
 //@   ensures [C13] no_short_read_when_ok: err == nil ==> !g.short
 //@   ensures [C13,C14] header_checked: err == nil ==> g.rlen >= 4 && rbyte(0) == 252 && rbyte(1) == 108 && rbyte(2) == 1 && rbyte(3) <= 1
